@@ -18,8 +18,13 @@ pub enum Done {
     Skip(String),
 }
 
+pub static QUIET: std::sync::atomic::AtomicBool = std::sync::atomic::AtomicBool::new(false);
+
 fn guarded<F: FnOnce() -> Done>(f: F) -> Done {
-    match catch_unwind(AssertUnwindSafe(f)) {
+    QUIET.store(true, std::sync::atomic::Ordering::SeqCst);
+    let r = catch_unwind(AssertUnwindSafe(f));
+    QUIET.store(false, std::sync::atomic::Ordering::SeqCst);
+    match r {
         Ok(d) => d,
         Err(p) => {
             let msg = if let Some(s) = p.downcast_ref::<&str>() {
@@ -213,6 +218,7 @@ fn parse_table(v: &OV) -> J {
 fn run_once(r: &J, ty: u32, payload: &OV, src: &str, etype: &str, script: &[bool], dflt: bool, head: &str, isref: bool, perm: bool, out: &mut Out) -> u32 {
     let pres = presented(payload, src);
     rt::reset_ctx(script, dflt, isref);
+    rt::set_deep(r["deep"].as_bool().unwrap_or(false));
     let done = crate::gen_cat::run_entry(ty, src, etype, payload);
     let events = rt::take_events();
     let decisions = rt::CTX.with(|c| c.borrow().decisions);
@@ -223,20 +229,21 @@ fn run_once(r: &J, ty: u32, payload: &OV, src: &str, etype: &str, script: &[bool
     if let Some(o) = inp.as_object_mut() {
         o.remove("perms");
         o.insert("perm".into(), json!(perm));
-        o.insert("val".into(), enc_ov(payload));
+        o.insert("val".into(), if r["deep"].as_bool().unwrap_or(false) { rec("null") } else { enc_ov(payload) });
         o.insert("src".into(), json!(src));
         o.insert("etype".into(), json!(etype));
         o.insert("script".into(), json!(script.iter().map(|b| if *b { 1 } else { 0 }).collect::<Vec<u8>>()));
         o.insert("dflt".into(), json!(if dflt { "c" } else { "b" }));
     }
-    out.emit(&json!({"e": head, "ty": ty, "val": enc_ov(&pres), "src": src, "etype": etype,
+    let deep = r["deep"].as_bool().unwrap_or(false);
+    out.emit(&json!({"e": head, "ty": ty, "val": if deep { rec("null") } else { enc_ov(&pres) }, "src": src, "etype": etype,
                      "script": script.iter().map(|b| if *b { 1 } else { 0 }).collect::<Vec<u8>>(), "dflt": if dflt { "c" } else { "b" },
-                     "deep": r["deep"].as_bool().unwrap_or(false), "pk": parse_table(payload), "inp": inp}));
+                     "deep": deep, "pk": if deep { json!([]) } else { parse_table(payload) }, "inp": inp}));
     for e in &events {
         out.emit(e);
     }
     match done {
-        Done::Ok(v) => out.emit(&json!({"e": "done", "ok": true, "val": v, "ids": [], "msg": ""})),
+        Done::Ok(v) => out.emit(&json!({"e": "done", "ok": true, "val": if deep { rv("unit") } else { v }, "ids": [], "msg": ""})),
         Done::Rec(ids) => out.emit(&json!({"e": "done", "ok": false, "val": rv("unit"), "ids": ids, "msg": ""})),
         Done::Msg(m) => out.emit(&json!({"e": "done", "ok": false, "val": rv("unit"), "ids": [], "msg": m})),
         Done::Panic(m) => out.emit(&json!({"e": "panic", "msg": m})),
@@ -253,7 +260,17 @@ pub fn run_record(r: &J, out: &mut Out, rng: &mut crate::util::Rng) {
     let ty = r["ty"].as_u64().unwrap() as u32;
     let src = r["src"].as_str().unwrap_or("ov");
     let etype = r["etype"].as_str().unwrap_or("rec");
-    let payload = rt::ov_from_rec(&r["val"]);
+    let deep = r["deep"].as_bool().unwrap_or(false);
+    let payload = if deep {
+        // deep nests are described, not spelled out: serde_json (128) and TLC's Json module (255) limit nesting
+        let mut v = OV::Int(1);
+        for i in 0..r["deepgen"]["depth"].as_u64().unwrap_or(128) {
+            v = if i % 2 == 0 { OV::Seq(vec![v]) } else { OV::Map(vec![("a".to_string(), v)]) };
+        }
+        v
+    } else {
+        rt::ov_from_rec(&r["val"])
+    };
     if src == "json" && ov_to_json(&payload).is_none() {
         return;
     }
@@ -307,7 +324,13 @@ pub fn run_record(r: &J, out: &mut Out, rng: &mut crate::util::Rng) {
 
 /// `dh core run` : records on stdin.
 pub fn main(args: &[String]) {
-    std::panic::set_hook(Box::new(|_| {}));
+    let default_hook = std::panic::take_hook();
+    std::panic::set_hook(Box::new(move |info| {
+        // panics of the code under test are data (logged as `panic` events); anything else is a harness bug
+        if !QUIET.load(std::sync::atomic::Ordering::SeqCst) {
+            default_hook(info);
+        }
+    }));
     let mut out = Out::stdout();
     match args.first().map(|s| s.as_str()) {
         Some("run") | Some("replay") => {
